@@ -1,5 +1,6 @@
 import MpgsModel.Lemmas.Quiet
 import MpgsModel.Lemmas.Lifecycle
+import MpgsModel.Lemmas.Kick
 import MpgsModel.Lemmas.RoleOn
 import MpgsModel.Props.C02
 /-!
@@ -387,6 +388,15 @@ theorem sweepTemps_unv (C : Crypto) (sz : Sizes) (t : Int) (s : Srv) (snap : Lis
         rw [updateOut_other C sz addr a _ t (fun h => hab h.symm)]
         omega
 
+theorem maybeKick_temps (s : Srv) (x : HAct) : (if x = HAct.kick then kickAll s else s).temps = s.temps := by
+  split <;> rfl
+
+theorem maybeKick_absent (s : Srv) (x : HAct) (a : Addr) (h : pget s.conns a = none) :
+    pget (if x = HAct.kick then kickAll s else s).conns a = none := by
+  split
+  · rw [pget_kickAll, h]; rfl
+  · exact h
+
 /-- one iteration of the loop, for an address that is not connected and is not connected in it -/
 theorem iter_unv (sz : Sizes) (C : Crypto) (s : Srv) (tq ts : Int) (batch : List Item) (acts : List HAct) (a : Addr)
     (hk : KN s.temps) (hq : TQp s.temps) (hc : pget s.conns a = none)
@@ -400,8 +410,10 @@ theorem iter_unv (sz : Sizes) (C : Crypto) (s : Srv) (tq ts : Int) (batch : List
   generalize handleItems sz C tq s batch acts = r1 at *
   obtain ⟨s1, acts1, e1⟩ := r1
   simp only at h1 hnc ⊢
-  have h2 := sweepConns_unv C sz ts s1 s1.conns (nextAct acts1).2 a
-  generalize sweepConns C sz ts s1 s1.conns (nextAct acts1).2 = r2 at *
+  have h2 := sweepConns_unv C sz ts (if (nextAct acts1).1 = HAct.kick then kickAll s1 else s1)
+    (if (nextAct acts1).1 = HAct.kick then kickAll s1 else s1).conns (nextAct acts1).2 a
+  generalize sweepConns C sz ts (if (nextAct acts1).1 = HAct.kick then kickAll s1 else s1)
+    (if (nextAct acts1).1 = HAct.kick then kickAll s1 else s1).conns (nextAct acts1).2 = r2 at *
   obtain ⟨s2, acts2, e2⟩ := r2
   simp only at h2 hnc ⊢
   have h3 := sweepTemps_unv C sz ts s2 s2.temps a
@@ -409,7 +421,8 @@ theorem iter_unv (sz : Sizes) (C : Crypto) (s : Srv) (tq ts : Int) (batch : List
   obtain ⟨s3, e3⟩ := r3
   simp only at h3 hnc ⊢
   have h1' := h1 (fun id tok h => hnc id tok (by simp only [List.append_assoc]; exact List.mem_append_left _ h))
-  have h2' := h2 h1'.nc
+  have h2' := h2 (maybeKick_absent s1 _ a h1'.nc)
+  rw [maybeKick_temps] at h2'
   have hk2 : KN s2.temps := by rw [h2'.1]; exact h1'.kn
   have hq2 : TQp s2.temps := by rw [h2'.1]; exact h1'.tq
   have h3' := h3 hk2 hq2 (fun x hx => pget_of_mem _ _ _ hk2 hx) hk2
